@@ -904,3 +904,37 @@ def reset_completeness(facts, records=None):
     if records is None and nrec < 8:
         out.append(ob("lifecycle.reset-complete", "anchor", "", "unrecognised", "only %d classes with reset() analysed" % nrec, ""))
     return out
+
+
+def engaged_flag(facts):
+    """datasketches::optional<T>: `initialized_` is the typestate of the raw storage `value_`.  Outside constructors it becomes true
+    only next to a placement-new of value_, and false only next to the destruction of value_ (reset()); it is never copied from
+    another object - an engaged target that takes over a source's `false` keeps a live T that is never destroyed (and a later
+    emplace constructs over it)."""
+    from astu import functions_by, is_this_field, txt
+    fns = functions_by(facts)
+    out = []
+    seen = set()
+    for pat, fn in sorted(fns.items()):
+        if (fn.get("rect") or "") != "datasketches::optional" or fn.get("body") is None or fn["pat"] in seen:
+            continue
+        seen.add(fn["pat"])
+        writes = []
+        walk(fn["body"], lambda n: writes.append(n) if n.get("k") == "Assign" and is_this_field(n["l"], ("initialized_",)) else None)
+        if not writes:
+            continue
+        news, dtors = [], []
+        walk(fn["body"], lambda n: news.append(n) if n.get("k") == "New" else None)
+        walk(fn["body"], lambda n: dtors.append(n) if (n.get("k") == "PseudoDtor") or (n.get("k") == "Call" and (n.get("cname") or "").startswith("~")) or (n.get("k") == "Call" and n.get("cname") == "reset") else None)
+        for i, w in enumerate(writes):
+            key = "optional::%s:%s:flag-write#%d" % (fn["name"], fn.get("special") or len(fn.get("params", [])), i)
+            r = strip_all(w["r"])
+            if r.get("k") == "Bool" and r.get("b"):
+                ok = bool(news)
+                out.append(ob("lifecycle.engaged-flag", key, w.get("loc", fn["pat"]), "discharged" if ok else "violated", "set next to the placement-new of value_" if ok else "initialized_ is set to true in a function that never constructs value_", fn["qname"]))
+            elif r.get("k") == "Bool":
+                ok = bool(dtors) or fn["kind"] == "ctor"
+                out.append(ob("lifecycle.engaged-flag", key, w.get("loc", fn["pat"]), "discharged" if ok else "violated", "cleared next to the destruction of value_" if ok else "initialized_ is cleared in a function that never destroys value_", fn["qname"]))
+            else:
+                out.append(ob("lifecycle.engaged-flag", key, w.get("loc", fn["pat"]), "violated", "initialized_ is assigned `%s`: the flag is copied instead of following the construction / destruction of value_ - an engaged optional that takes over `false` keeps a live value that is never destroyed (leaked items after sketch assignment / swap)" % txt(w["r"]), fn["qname"]))
+    return out
